@@ -1,5 +1,6 @@
 import CliUtils.Drv.Util
 import CliUtils.Drv.C19
+import CliUtils.Drv.C15
 /-
   Line-protocol driver.  stdin: one JSON object per line  {"d": domain, "i": input, "o": implementation output}
   stdout: one line per case that needs attention, then one summary line.
@@ -8,7 +9,10 @@ open Lean CliUtils CliUtils.Drv
 
 def handlers : List (String × Handler) := [
   ("set", C19.handleSet),
-  ("mgr", C19.handleMgr)
+  ("mgr", C19.handleMgr),
+  ("idstr", C15.handleIdstr),
+  ("invstore", C15.handleInvstore),
+  ("dep", C15.handleDep)
 ]
 
 structure Stats where
